@@ -22,6 +22,7 @@ import Frp.Engines.Crash
 import Frp.Engines.Stack
 import Frp.Engines.E2e
 import Frp.Engines.Pool
+import Frp.Engines.HttpE2e
 /-! Registry of driver engines (one line per engine). -/
 namespace Frp.Engines
 open Frp.Proto
@@ -51,5 +52,6 @@ def all : List (String × Engine) :=
   , ("stack", stack)
   , ("e2e", e2e)
   , ("pool", pool)
+  , ("httpe2e", httpe2e)
   ]
 end Frp.Engines
